@@ -121,3 +121,26 @@ func VerifC08_UpdateStep() {
 	want := res.DataLimit != 0 && P+size >= res.DataLimit
 	zz.Assert((err2 == datatransfer.ErrPause) == want, "the same rule applies at the new limit")
 }
+
+// VerifC08_InitiatorResumeDoesNotLiftLimitPause: while the responder is paused at its data limit,
+// a resume from the initiator (solicited or not: whatever the initiator's own pause flag says)
+// does not let payload progress: the responder stays marked paused and the transport is told to
+// stay paused; only a validation update releases it.
+func VerifC08_InitiatorResumeDoesNotLiftLimitPause() {
+	f, st, chid := verifInstalled(1, 0)
+	zz.Assume(st.Status == datatransfer.Ongoing && st.SelfPeer == st.Responder && st.ResponderPaused)
+	req := verifScalarRequest("req")
+	req.TransferId = uint64(chid.ID)
+	zz.Assume(req.MessageType == 1 && !req.Pause) // update: resume
+	err := f.rcv.receiveRequest(context.Background(), chid.Initiator, req)
+	zz.Settle()
+	post := f.g.VerifPeek(chid)
+	zz.Assert(post.ResponderPaused, "the responder stays marked paused")
+	zz.Assert(f.tr.countFor("pause", chid) == 1 && f.tr.count("resume") == 0, "the transport is told to stay paused")
+	zz.Assert(err == nil, "handled")
+	if st.InitiatorPaused {
+		zz.Reach("initiator had paused")
+	} else {
+		zz.Reach("unsolicited resume")
+	}
+}
